@@ -21,6 +21,8 @@ import SarpyModel.Drivers.Segment
 import SarpyModel.Drivers.FieldFmt2
 import SarpyModel.Drivers.XsdFmt
 import SarpyModel.Drivers.Kernels2
+import SarpyModel.Drivers.Loops
+import SarpyModel.Drivers.LoopsChip
 namespace Sarpy.Drivers
 
 def step (line : String) : String :=
@@ -49,6 +51,8 @@ def step (line : String) : String :=
   | "fmt2" :: rest => (fmt2Step rest).getD "bad-op"
   | "xsd" :: rest => (xsdStep rest).getD "bad-op"
   | "k2" :: rest => (k2Step rest).getD "bad-op"
+  | "loops" :: rest => (loopsStep rest).getD "bad-op"
+  | "loopsc" :: rest => (loopscStep rest).getD "bad-op"
   | _ => "bad-op"
 
 partial def loop (h : IO.FS.Stream) : IO Unit := do
